@@ -6,6 +6,7 @@ import (
 	"path/filepath"
 	"sort"
 	"strings"
+	"syscall"
 	"time"
 
 	"verif/hk"
@@ -22,7 +23,7 @@ func FSConfigs(tier string) []FSCfg {
 					for v := 0; v < 2; v++ {
 						c := FSCfg{MaxBytes: mb, MaxFiles: mf, MaxDuration: md, TSOnly: ts}
 						if v == 1 {
-							c.Mode, c.PreExisting = 0o640, true
+							c.Mode, c.PreExisting = 0o666, true // bits the process umask (022, set by the harness) strips
 						}
 						out = append(out, c)
 					}
@@ -58,6 +59,7 @@ func FSOps(c FSCfg) []string {
 // FSRunHistory executes one operation history on a fresh sink and directory
 // inside a controlled execution (virtual clock) and returns the first violation.
 func FSRunHistory(c FSCfg, hist []string, c15 bool, scratch string) (viol string, desc string) {
+	syscall.Umask(0o022)
 	dir, err := os.MkdirTemp(scratch, "fs")
 	if err != nil {
 		return "harness: " + err.Error(), ""
